@@ -16,10 +16,10 @@ import json
 from harness.translate import c16_shape
 
 ID = "C16"
-LEVEL_TEXT = ("26 theorems over ALL operation histories (induction over the op list, no length bound), closed under the global context, each proved "
+LEVEL_TEXT = ("32 theorems over ALL operation histories (induction over the op list, no length bound), closed under the global context, each proved "
               "for BOTH statement orders of set_member (store+attach the new member before / after re-targeting the aliases of the replaced one); "
               "which order the code has is read from the source by a translator on every run (Gen/C16_shape.v) and selects the instance the extracted "
-              "model runs. For every history that inserts objects fresh and under their own name, OR inserts again an alias that was deleted or "
+              "model runs. For every history that inserts objects fresh and under their own name, OR inserts again an alias or member-less object that was deleted or "
               "replaced and of which nothing is left behind, and applies operations to objects that are in the tree (all_top_down), the invariant Inv "
               "holds in every reachable state (C16_inv_init/_step/_reachable): member.parent is the container and member.name its key, parents are "
               "well founded (so obj.path terminates: the fuel the model passes is proved sufficient), keys of every aliases dictionary are the current "
@@ -30,6 +30,9 @@ LEVEL_TEXT = ("26 theorems over ALL operation histories (induction over the op l
               "operation on the object at pj with relative path p is the operation on the collection with pj++p), and for alias operations; aliases "
               "follow a set_member replacement and record as target_path the path the new member had when the loop ran - equal to its real path in "
               "the order 'attach first' (C16_target_path_follows), refuted by witness in the other order (finding C16-F2, repaired by 2e2fded). "
+              "Lookups THROUGH aliases are in the model (Alias.final_target, Alias.members as a function of the final target's current members, "
+              "wrappers): in every state the names seen through an alias are those of its final target now, dotted lookup = chained lookup, and what "
+              "is returned wraps exactly the object found by going to the final target at every step; under Inv its path is the path looked up. "
               "No alias ever targets itself after ANY history (no discipline at all). The back-reference clause is REFUTED by vm_compute witnesses for "
               "bottom-up histories (C16-F1) and for an alias re-inserted while its old back-reference is still around (C16-F3), and proved modulo the "
               "decidable gap predicate known_gap. The model is tied to the code by the translator, by exhaustive-small and state-guided random "
@@ -37,11 +40,12 @@ LEVEL_TEXT = ("26 theorems over ALL operation histories (induction over the op l
               "state of every object ever constructed after every step, plus direct evaluation of every clause and of a reference dictionary on the "
               "live objects; known findings are recognised by exact predicates over observed registrations, never by the shape of the history.")
 LEVEL_NOTE = ("Trusted: Coq kernel, extraction, the object->state abstraction World.dump in this module, the translator's reading of the statement "
-              "order. Modelled, not verified: navigation THROUGH an alias (Alias.members builds transient aliases; set/del through an alias is finding "
-              "C16-F4) and alias->alias chains are outside the model: the model answers `scope`, such operations are skipped in the differential run "
-              "and exercised only by the implementation-only stream. Re-assigning the object that already is the member, and (order 'attach first') "
+              "order. Modelled, not verified: the through-alias model is read-only - MUTATING through an alias (finding C16-F4), "
+              "creating alias->alias links, and lookups that would resolve a link on the way get the explicit answer `scope` and are skipped in the "
+              "differential run (exercised by the implementation-only stream); lookups through resolved aliases are compared with the model at the "
+              "end of every differential history. Re-assigning the object that already is the member, and (order 'attach first') "
               "replacing an aliased member by an alias, are cut the same way. Modules in the model carry no filepath (stub merge: implementation-only "
-              "stream). Classes have no bases. Inside the theorems re-insertion is restricted to aliases of which nothing is left behind; re-inserted "
+              "stream). Classes have no bases. Inside the theorems re-insertion is restricted to aliases and member-less objects of which nothing is left behind; other re-inserted "
               "plain objects and aliases with stale entries are covered by the generator and the exact classifiers of C16-F1/F3 only. Three conjuncts "
               "of the discipline (an alias has no members, is nobody's parent, nobody's target) are invariants that are checked on every step, not "
               "proved. Which exception reports a rejection is canonicalised away.")
